@@ -571,4 +571,191 @@ example : build none [] [.lp 1 [.bytes (List.replicate 256 0)]] = .err := by dec
 example : build (some 4) [] [.lp 1 [.uint 2 5], .uint 1 9] = .ok [2, 0, 5, 9] := by decide
 example : build (some 3) [] [.lp 1 [.uint 2 5], .uint 1 9] = .err := by decide
 
+/-! ### 8. misuse that must surface as an error: SetError, a failing AddValue, a high-tag-number AddASN1 -/
+
+mutual
+/-- programs made of value writes, AddValue (failing or not), SetError and nested children (no Unwrite, no panics) -/
+def quietP : Prog → Bool
+  | .uint _ _ => true
+  | .bytes _ => true
+  | .value _ _ => true
+  | .seterr => true
+  | .lp _ body => quietL body
+  | .asn1 _ body => quietL body
+  | _ => false
+def quietL : List Prog → Bool
+  | [] => true
+  | p :: ps => quietP p && quietL ps
+end
+
+mutual
+/-- some SetError / failing AddValue / high-tag-number AddASN1 occurs in the program -/
+def hasErrP : Prog → Bool
+  | .seterr => true
+  | .value false _ => true
+  | .lp _ body => hasErrL body
+  | .asn1 t body => (t &&& 0x1f == 0x1f) || hasErrL body
+  | _ => false
+def hasErrL : List Prog → Bool
+  | [] => false
+  | p :: ps => hasErrP p || hasErrL ps
+end
+
+theorem flush_ok_or (cap : Option Nat) (a : Bool) (b c : B) :
+    (∃ b', flush cap a b c = .ok b' ∧ (b.err = true → b'.err = true) ∧ (c.err = true → b'.err = true)) ∨
+      flush cap a b c = .panic true := by
+  unfold flush
+  by_cases hc : c.err = true
+  · left; exact ⟨_, by rw [if_pos hc], fun _ => rfl, fun _ => rfl⟩
+  · rw [if_neg hc]
+    by_cases h1 : c.res.length < c.pll + c.off
+    · right; rw [if_pos h1]
+    · rw [if_neg h1]
+      cases a with
+      | false =>
+        left
+        simp only [Bool.false_eq_true, if_false]
+        generalize patchLen _ _ _ _ = pr
+        obtain ⟨r3, l⟩ := pr
+        simp only
+        by_cases hl : (l != 0) = true
+        · exact ⟨_, by rw [if_pos hl], fun _ => rfl, fun h => absurd h hc⟩
+        · rw [if_neg hl]; exact ⟨_, rfl, fun h => h, fun h => absurd h hc⟩
+      | true =>
+        simp only [if_true]
+        by_cases h2 : (c.pll != 1) = true
+        · right; rw [if_pos h2]
+        · rw [if_neg h2]
+          by_cases h3 : c.res.length - c.pll - c.off > 0xfffffffe
+          · left; exact ⟨_, by rw [if_pos h3], fun _ => rfl, fun _ => rfl⟩
+          · rw [if_neg h3]
+            by_cases h4 : asn1Extra (c.res.length - c.pll - c.off) = 0
+            · left; simp only [h4, if_true]; exact ⟨_, rfl, fun h => h, fun h => absurd h hc⟩
+            · simp only [h4, if_false]
+              by_cases h5 : (add cap { c with res := c.res.set c.off (asn1LenByte (c.res.length - c.pll - c.off)) }
+                  (zeros (asn1Extra (c.res.length - c.pll - c.off)))).err = true
+              · left; exact ⟨_, by rw [if_pos h5], fun _ => rfl, fun _ => rfl⟩
+              · rw [if_neg h5]
+                left
+                generalize patchLen _ _ _ _ = pr
+                obtain ⟨r3, l⟩ := pr
+                simp only
+                by_cases hl : (l != 0) = true
+                · exact ⟨_, by rw [if_pos hl], fun _ => rfl, fun h => absurd h hc⟩
+                · rw [if_neg hl]; exact ⟨_, rfl, fun h => h, fun h => absurd h hc⟩
+
+theorem add_err_mono (cap : Option Nat) (b : B) (bs : Bytes) (h : b.err = true) : (add cap b bs).err = true := by
+  simp [add, h]
+
+mutual
+theorem quietP_run (cap : Option Nat) (top : Bool) : (p : Prog) → (b : B) → quietP p = true → WF cap b →
+    ∃ b', runP cap top p b = .ok b' ∧ (b.err = true → b'.err = true) ∧ (hasErrP p = true → b'.err = true)
+  | .uint w v, b, _, _ => ⟨_, rfl, add_err_mono cap b _, by simp [hasErrP]⟩
+  | .bytes bs, b, _, _ => ⟨_, rfl, add_err_mono cap b _, by simp [hasErrP]⟩
+  | .value true bs, b, _, _ => ⟨_, rfl, by simpa using add_err_mono cap b bs, by simp [hasErrP]⟩
+  | .value false bs, b, _, _ => ⟨_, rfl, fun _ => rfl, fun _ => rfl⟩
+  | .seterr, b, _, _ => ⟨_, rfl, fun _ => rfl, fun _ => rfl⟩
+  | .unwrite _, _, h, _ => by simp [quietP] at h
+  | .throw, _, h, _ => by simp [quietP] at h
+  | .pwrite, _, h, _ => by simp [quietP] at h
+  | .lp k body, b, hq, hw => by
+    have hgood := runP_inv cap top (.lp k body) b hw
+    unfold runP at hgood ⊢
+    by_cases he : b.err = true
+    · rw [if_pos he]; exact ⟨b, rfl, fun h => h, fun _ => he⟩
+    · rw [if_neg he] at hgood ⊢
+      simp only at hgood ⊢
+      by_cases h1 : (add cap b (zeros k)).err = true
+      · rw [if_pos h1]; exact ⟨_, rfl, fun _ => h1, fun _ => h1⟩
+      · rw [if_neg h1] at hgood ⊢
+        obtain ⟨w1, w2, w3, w4, w5⟩ := add_inv cap b (zeros k) hw
+        have hres := w5 (by simpa using h1)
+        have hwc : WF cap ⟨(add cap b (zeros k)).res, false, b.res.length, k⟩ :=
+          ⟨by show b.res.length + k ≤ _; rw [hres]; simp [zeros], w1.2⟩
+        obtain ⟨c, hc, _, hce⟩ := quietL_run cap false body _ (by simpa [quietP] using hq) hwc
+        rw [hc] at hgood ⊢
+        simp only [finish] at hgood ⊢
+        rcases flush_ok_or cap false (add cap b (zeros k)) c with ⟨b', hf, f1, f2⟩ | hp
+        · rw [hf]
+          exact ⟨b', rfl, fun h => absurd h he, fun hh => f2 (hce (by simpa [hasErrP] using hh))⟩
+        · rw [hp] at hgood; simp [Good] at hgood
+  | .asn1 t body, b, hq, hw => by
+    have hgood := runP_inv cap top (.asn1 t body) b hw
+    unfold runP at hgood ⊢
+    by_cases he : b.err = true
+    · rw [if_pos he]; exact ⟨b, rfl, fun h => h, fun _ => he⟩
+    · rw [if_neg he] at hgood ⊢
+      by_cases ht : (t &&& 0x1f == 0x1f) = true
+      · rw [if_pos ht]; exact ⟨_, rfl, fun _ => rfl, fun _ => rfl⟩
+      · rw [if_neg ht] at hgood ⊢
+        simp only at hgood ⊢
+        by_cases h0 : (add cap b [t]).err = true
+        · rw [if_pos h0]; exact ⟨_, rfl, fun _ => h0, fun _ => h0⟩
+        · rw [if_neg h0] at hgood ⊢
+          by_cases h1 : (add cap (add cap b [t]) (zeros 1)).err = true
+          · rw [if_pos h1]; exact ⟨_, rfl, fun _ => h1, fun _ => h1⟩
+          · rw [if_neg h1] at hgood ⊢
+            obtain ⟨v1, v2, v3, v4, v5⟩ := add_inv cap b [t] hw
+            obtain ⟨w1, w2, w3, w4, w5⟩ := add_inv cap (add cap b [t]) (zeros 1) v1
+            have hres := w5 (by simpa using h1)
+            have hwc : WF cap ⟨(add cap (add cap b [t]) (zeros 1)).res, false, (add cap b [t]).res.length, 1⟩ :=
+              ⟨by show (add cap b [t]).res.length + 1 ≤ _; rw [hres]; simp [zeros], w1.2⟩
+            obtain ⟨c, hc, _, hce⟩ := quietL_run cap false body _ (by simpa [quietP] using hq) hwc
+            rw [hc] at hgood ⊢
+            simp only [finish] at hgood ⊢
+            rcases flush_ok_or cap true (add cap (add cap b [t]) (zeros 1)) c with ⟨b', hf, f1, f2⟩ | hp
+            · rw [hf]
+              refine ⟨b', rfl, fun h => absurd h he, fun hh => f2 (hce ?_)⟩
+              simp only [hasErrP, Bool.or_eq_true] at hh
+              rcases hh with hh | hh
+              · exact absurd hh ht
+              · exact hh
+            · rw [hp] at hgood; simp [Good] at hgood
+theorem quietL_run (cap : Option Nat) (top : Bool) : (ps : List Prog) → (b : B) → quietL ps = true → WF cap b →
+    ∃ b', runL cap top ps b = .ok b' ∧ (b.err = true → b'.err = true) ∧ (hasErrL ps = true → b'.err = true)
+  | [], b, _, _ => ⟨b, rfl, fun h => h, by simp [hasErrL]⟩
+  | p :: ps, b, hq, hw => by
+    simp only [quietL, Bool.and_eq_true] at hq
+    obtain ⟨b1, h1, e1, e2⟩ := quietP_run cap top p b hq.1 hw
+    have hg := runP_inv cap top p b hw
+    rw [h1] at hg
+    obtain ⟨b2, h2, e3, e4⟩ := quietL_run cap top ps b1 hq.2 hg.1
+    refine ⟨b2, by simp [runL, h1, h2], fun h => e3 (e1 h), ?_⟩
+    intro hh
+    simp only [hasErrL, Bool.or_eq_true] at hh
+    rcases hh with hh | hh
+    · exact e3 (e2 hh)
+    · exact e4 hh
+end
+
+/-- **misuse ⇒ error**: a program of value writes and nested children that contains a SetError, a failing
+    AddValue or a high-tag-number AddASN1 anywhere makes Bytes() return an error — never bytes, never a panic —
+    on growable and fixed-size builders alike -/
+theorem misuse_err (cap : Option Nat) (pre : Bytes) (p : List Prog) (hq : quietL p = true) (hm : hasErrL p = true)
+    (hpre : ∀ c, cap = some c → pre.length ≤ c) : build cap pre p = .err := by
+  obtain ⟨b', hr, _, he⟩ := quietL_run cap true p ⟨pre, false, 0, 0⟩ hq ⟨by simp, hpre⟩
+  unfold build
+  rw [hr]; simp [he hm]
+
+/-- and such programs never panic at all -/
+theorem quiet_no_panic (cap : Option Nat) (pre : Bytes) (p : List Prog) (hq : quietL p = true)
+    (hpre : ∀ c, cap = some c → pre.length ≤ c) : ∀ i, build cap pre p ≠ .panic i := by
+  obtain ⟨b', hr, _, _⟩ := quietL_run cap true p ⟨pre, false, 0, 0⟩ hq ⟨by simp, hpre⟩
+  intro i
+  unfold build
+  rw [hr]; by_cases h : b'.err = true <;> simp [h]
+
+/-! non-vacuity -/
+example : build none [] [.uint 1 1, .lp 2 [.bytes [2, 3], .seterr], .uint 1 4] = .err := by decide
+example : build none [] [.lp 1 [.asn1 0x1f [.uint 1 1]]] = .err := by decide
+example : build (some 9) [] [.value false [1, 2]] = .err := by decide
+/-- Unwrite elimination: the Unwrite removes the 16-bit value, the mirror is the program without both -/
+example : build none [0xaa] [.uint 1 1, .uint 2 7, .unwrite 2, .lp 1 [.bytes [9]]] = .ok [0xaa, 1, 1, 9] ∧
+    (mirror [0xaa] [.uint 1 1, .uint 2 7, .unwrite 2, .lp 1 [.bytes [9]]]).map
+      (fun q => (q.length, roundTrips q [0xaa, 1, 1, 9])) = some (3, true) := by decide
+example : roundTrips [.bytes [0xaa], .uint 1 1, .lp 1 [.bytes [9]]] [0xaa, 1, 1, 9] = true := by decide
+/-- fixed-size: exactly enough room / one byte short / growable overflow -/
+example : build (some 5) [] [.asn1 0x30 [.uint 2 5], .uint 1 9] = .ok [0x30, 2, 0, 5, 9] ∧
+    build (some 4) [] [.asn1 0x30 [.uint 2 5], .uint 1 9] = .err := by decide
+
 end XC.C22
